@@ -163,14 +163,11 @@ def mapping(ref_fn: ast.AST, act_fn: ast.AST) -> Dict[str, str]:
     m = {a: r for a, r in m.items() if a not in bad and a != r}
     # a target name must be free: not a local of the actual function that keeps its name, not a builtin/global use
     act_locals = local_names(act_fn)
-    staying = act_locals - set(m)
     free_names = {n.id for n in ast.walk(act_fn) if isinstance(n, ast.Name)} - act_locals
-    m = {a: r for a, r in m.items() if r not in staying and r not in free_names and r not in _BUILTINS}
-    # dropping a rename makes its source name stay: repeat until no kept rename targets a name that stays
-    # (otherwise two different locals would be merged into one name and the analysed code would not be the code)
     while True:
+        # to a fixpoint: dropping `x -> y` makes x a local that keeps its name, so a rename `z -> x` would capture it
         staying = act_locals - set(m)
-        m2 = {a: r for a, r in m.items() if r not in staying}
+        m2 = {a: r for a, r in m.items() if r not in staying and r not in free_names and r not in _BUILTINS}
         if len(m2) == len(m):
             break
         m = m2
